@@ -16,7 +16,7 @@ LEVEL = "exploration"
 RULE = ("score vectors over 0..3: all vectors up to length 5 (quick) / 6 (thorough), seeded vectors up to length 9 / "
         "12; keys: sum, length, max, constant, lexicographic tuple, sum-of-squares. Oracle for sorted_combinations: "
         "multiset of yielded combinations == all non-empty index-ordered combinations, each once, keys "
-        "non-decreasing, reported key == key(comb) when yield_key. Oracle for "
+        "non-decreasing, reported key == key(comb) when yield_key; run once with distinct elements and once with the raw (mutually equal) scores as elements. Oracle for "
         "min_combinations_in_interval_iter_sorted: for every interval [a,b) with 0<=a,b<=total+2 the result equals "
         "the brute-force set of combinations with the smallest sum in the interval, each with that sum. "
         "distinct_nontrivial = distinct (vector, key) resp. (vector, interval) cases with >=2 elements.")
@@ -87,6 +87,28 @@ def check_sorted(vec, keyname, yield_key):
     return None
 
 
+def check_sorted_raw(vec, keyname):
+    """Elements that compare equal (the raw scores themselves): combinations are index based, so equal elements
+    must still give every index combination exactly once."""
+    from windpyutils.generic import sorted_combinations
+    key = KEYS[keyname]
+    limit = 2 ** len(vec) + 5
+    got = outcome(lambda: list(itertools.islice(sorted_combinations(list(vec), key), limit)))
+    if got[0] != "ok":
+        return "operation-raised", f"sorted_combinations({vec}, key={keyname}) raised {got[1]}"
+    want = Counter()
+    for r in range(1, len(vec) + 1):
+        for c in itertools.combinations(vec, r):
+            want[c] += 1
+    if Counter(got[1]) != want:
+        return "completeness", (f"sorted_combinations(elements={vec} (equal values), key={keyname}) yielded {len(got[1])} "
+                                f"combinations {got[1][:6]}..., expected {sum(want.values())} (each index combination once)")
+    ks = [key(c) for c in got[1]]
+    if any(a > b for a, b in zip(ks, ks[1:])):
+        return "key-order", f"sorted_combinations(elements={vec}, key={keyname}) keys not non-decreasing"
+    return None
+
+
 def check_interval(vec, a, b):
     from windpyutils.generic import min_combinations_in_interval_iter_sorted as f
     elems = [f"e{i}" for i in range(len(vec))]
@@ -143,6 +165,16 @@ def run_shard(spec):
                         bad = ("operation-does-not-end", f"sorted_combinations({vec}, {kn}) exceeded the statement budget")
                 if bad:
                     report(bad, {"what": "sorted", "vec": vec, "key": kn, "yield_key": yk})
+            if len(vec) <= 8:
+                res.evaluations += 1
+                res.count("sorted_combinations_runs_equal_elements")
+                with instr.budget(50_000_000):
+                    try:
+                        bad = check_sorted_raw(vec, kn)
+                    except instr.StepBudgetExceeded:
+                        bad = ("operation-does-not-end", f"sorted_combinations(elements={vec}) exceeded the statement budget")
+                if bad:
+                    report(bad, {"what": "sorted-raw", "vec": vec, "key": kn})
         if len(vec) <= (8 if spec["tier"] == "thorough" else 7):
             total = sum(vec)
             for a in range(0, total + 3):
@@ -172,7 +204,12 @@ def extra_coverage(tier, seed):
 def replay(doc):
     instr.install(["windpyutils.generic"])
     c = doc["replay"]["case"]
-    bad = check_sorted(c["vec"], c["key"], c["yield_key"]) if c["what"] == "sorted" else check_interval(c["vec"], c["a"], c["b"])
+    if c["what"] == "sorted":
+        bad = check_sorted(c["vec"], c["key"], c["yield_key"])
+    elif c["what"] == "sorted-raw":
+        bad = check_sorted_raw(c["vec"], c["key"])
+    else:
+        bad = check_interval(c["vec"], c["a"], c["b"])
     if bad:
         return True, f"reproduced: {bad[0]}: {bad[1]}"
     return False, "agrees with brute force"
